@@ -21,6 +21,12 @@ open Lentil
 section shift
 variable {R : Type} [Field R] [RealLike R]
 
+/-- **The model's fold is the regenerated loop of `Field.shift`**: `foldShift` (the fold every shift theorem of this file is about) is
+`Gen.fieldShiftFold` — initial accumulators, which accumulator feeds `xs` / `ys`, and which result is kept as `x` / `y` are read from
+`field.py` — instantiated with the elements' own `shift` -/
+theorem foldShift_is_generated (ts : List (TiltEl R)) (z wl : R) :
+    foldShift ts z wl = Gen.fieldShiftFold (fun (e : TiltEl R) xs ys z' wl' => e.shift xs ys z' wl') (RealLike.ofInt 0) (RealLike.ofInt 1) ts z wl := rfl
+
 /-- **Additivity.** The shift folded over any list of tilt elements (angular and first-order dispersive) is the sum of
 the displacements each element produces on its own. -/
 theorem shift_additive (h0 : (RealLike.ofInt 0 : R) = 0) (ts : List (TiltEl R)) (z wl : R) :
